@@ -75,6 +75,10 @@ def layouts(tier, seed, salt):
     # larger geometries (wide bus, high addresses, long registers) - few, in both tiers
     add(32, 6, 0, [{"w": 33, "acc": "rw", "addr": 40}, {"w": 96, "acc": "rw", "addr": 57}, {"w": 1, "acc": "w", "addr": 63}], ovs=[None, 0])
     add(64, 4, 1, [{"w": 65, "acc": "rw"}, {"w": 64, "acc": "r"}, {"w": 130, "acc": "rw", "addr": 12}], ovs=[None, 1])
+    # CSR buses of any positive width are legal: 12, 7, 24 bits
+    add(12, 4, 0, [{"w": 30, "acc": "rw"}, {"w": 12, "acc": "r"}, {"w": 25, "acc": "rw", "addr": 9}], ovs=[None, 0])
+    add(7, 4, 1, [{"w": 20, "acc": "rw"}, {"w": 1, "acc": "w"}, {"w": 15, "acc": "r"}], ovs=[None, 1])
+    add(24, 3, 0, [{"w": 49, "acc": "rw", "addr": 1}, {"w": 24, "acc": "rw"}], ovs=[None, 0])
     add(8, 8, 0, [{"w": 24, "acc": "rw", "addr": 201}, {"w": 8, "acc": "rw", "addr": 255}, {"w": 16, "acc": "rw", "addr": 127}], ovs=[None, 0])
     if max_chunks >= 6:
         add(8, 6, 0, [{"w": 48, "acc": "rw", "addr": 5}, {"w": 40, "acc": "rw", "addr": 13}, {"w": 8, "acc": "rw", "addr": 4}])
